@@ -7,12 +7,13 @@ import Poupool.Proofs.ComposeInv
     c = "the ghost variable currently holds a `known halted` value"   (concrete, in the master's `vars`)
     a = "reading the effects performed so far in order, the last thing done towards X is a halt-class tell or an
          `is_halt` answered TRUE"                                          (`ghostAfter`)
-  * `T` : a holds;          * `S` : c → a;          * `B` : nothing known (a tell of something else to X has been
-  emitted and the ghost variable has not been overwritten yet, or the ghost variable was set to a halted value
-  without a halt-class tell / TRUE answer before it).
+  * `T` : a holds;          * `S` : c → a;          * `B` : nothing known (a start message has been told to X and
+  the ghost variable has not been overwritten yet, or the ghost variable was set to a halted value without a
+  halt-class tell / TRUE answer before it).
   A program is accepted if, started in `S`, no path ends in `B`.  Hence on every path the variable is given a
   halted value only right after a halt-class tell tag (state `T`) or by a TRUE refinement, and a non-halted value
-  after every other tell to X; assigning a non-halted value elsewhere is harmless and accepted.
+  after every tell of a start message to X; assigning a non-halted value elsewhere is harmless and accepted, and so
+  is telling X a message that is neither halt-class nor a start message without touching the variable.
 -/
 namespace Poupool.Compose
 open Poupool
@@ -41,7 +42,7 @@ def absSetUnknown : Abs → Abs
 
 def absTag (S : CSpec) (t : Nat) (ab : Abs) : Abs :=
   match S.tells.lookup t with
-  | some m => if S.isHaltMsg m then .T else .B
+  | some m => if S.isHaltMsg m then .T else if S.isStart m then .B else ab
   | none => ab
 
 def absRef (S : CSpec) (t : List (VarId × Int)) (ab : Abs) : Abs :=
@@ -49,8 +50,9 @@ def absRef (S : CSpec) (t : List (VarId × Int)) (ab : Abs) : Abs :=
   | some x => absSet (S.isG x) ab
   | none => ab
 
-def absAskTrue (S : CSpec) (t : List (VarId × Int)) (ab : Abs) : Abs :=
-  if askHalting S t then .T else absRef S t ab
+/-- the answer whose refinement list is `r` has been taken -/
+def absAsk (S : CSpec) (r : List (VarId × Int)) (ab : Abs) : Abs :=
+  if askHalting S r then .T else absRef S r ab
 
 def absCond (S : CSpec) : Cond → Abs → List (Bool × Abs)
   | .nondet, a => [(true, a), (false, a)]
@@ -58,7 +60,7 @@ def absCond (S : CSpec) : Cond → Abs → List (Bool × Abs)
   | .ff, a => [(false, a)]
   | .leafIn _, a => [(true, a), (false, a)]
   | .cmp _ _ _, a => [(true, a), (false, a)]
-  | .ask t f, a => [(true, absAskTrue S t a), (false, absRef S f a)]
+  | .ask t f, a => [(true, absAsk S t a), (false, absAsk S f a)]
   | .not c, a => (absCond S c a).map fun (b, a') => (!b, a')
   | .and x y, a => (absCond S x a).flatMap fun (b, a') => if b then absCond S y a' else [(false, a')]
   | .or x y, a => (absCond S x a).flatMap fun (b, a') => if b then [(true, a')] else absCond S y a'
@@ -197,22 +199,32 @@ theorem ghostAfter_append (S : CSpec) (a : Bool) (e1 e2 : List Eff) :
     ghostAfter S a (e1 ++ e2) = ghostAfter S (ghostAfter S a e1) e2 := by
   simp [ghostAfter, List.foldl_append]
 
+theorem ghost1_emit (S : CSpec) (a : Bool) (t : Nat) :
+    ghost1 S a (.emit t) =
+      match S.tells.lookup t with
+      | some m => if S.isHaltMsg m then true else if S.isStart m then false else a
+      | none => a := rfl
+
 theorem ghost1_mono (S : CSpec) {a a' : Bool} (h : a = true → a' = true) (e : Eff) :
     ghost1 S a e = true → ghost1 S a' e = true := by
   cases e with
   | emit t =>
       simp only [ghost1]
       cases S.tells.lookup t with
-      | some m => exact id
+      | some m =>
+          dsimp only
+          cases S.isHaltMsg m with
+          | true => exact id
+          | false =>
+              cases S.isStart m with
+              | true => exact id
+              | false => simpa using h
       | none => exact h
   | ask ans t f =>
-      cases ans with
-      | true =>
-          simp only [ghost1, Bool.or_eq_true]
-          rintro (h1 | h1)
-          · exact Or.inl (h h1)
-          · exact Or.inr h1
-      | false => simpa only [ghost1] using h
+      simp only [ghost1, Bool.or_eq_true]
+      rintro (h1 | h1)
+      · exact Or.inl (h h1)
+      · exact Or.inr h1
 
 theorem ghostAfter_mono (S : CSpec) (e : List Eff) : ∀ {a a' : Bool}, (a = true → a' = true) →
     ghostAfter S a e = true → ghostAfter S a' e = true := by
@@ -276,17 +288,20 @@ theorem absCond_sound (S : CSpec) (l : List Int) (c : Cond) :
   | ask t f =>
       intro s ab a b s' e hv hγ h
       simp only [evalCondE, List.mem_cons, Prod.mk.injEq, List.not_mem_nil, or_false] at h
-      rcases h with ⟨rfl, rfl, rfl⟩ | ⟨rfl, rfl, rfl⟩
-      · refine ⟨refine_length t _, absAskTrue S t ab, by simp [absCond], ?_⟩
-        simp only [ghostAfter, List.foldl_cons, List.foldl_nil, ghost1, absAskTrue]
-        by_cases hh : askHalting S t = true
+      have key : ∀ (r : List (VarId × Int)) (ans : Bool), (if ans then t else f) = r →
+          γ (absAsk S r ab)
+            (S.isG (getNth (r.foldl (fun vs (p : VarId × Int) => setNth vs p.1 p.2) s.vars) S.v))
+            (ghostAfter S a [.ask ans t f]) := by
+        intro r ans hr
+        simp only [ghostAfter, List.foldl_cons, List.foldl_nil, ghost1, absAsk, hr]
+        by_cases hh : askHalting S r = true
         · simp [hh, γ]
-        · have hh' : askHalting S t = false := by simpa using hh
+        · have hh' : askHalting S r = false := by simpa using hh
           simp only [hh', Bool.or_false, Bool.false_eq_true, if_false]
-          exact absRef_sound S t s.vars hv hγ
-      · refine ⟨refine_length f _, absRef S f ab, by simp [absCond], ?_⟩
-        simp only [ghostAfter, List.foldl_cons, List.foldl_nil, ghost1]
-        exact absRef_sound S f s.vars hv hγ
+          exact absRef_sound S r s.vars hv hγ
+      rcases h with ⟨rfl, rfl, rfl⟩ | ⟨rfl, rfl, rfl⟩
+      · exact ⟨refine_length t _, absAsk S t ab, by simp [absCond], key t true rfl⟩
+      · exact ⟨refine_length f _, absAsk S f ab, by simp [absCond], key f false (by simp)⟩
   | not c ih =>
       intro s ab a b s' e hv hγ h
       simp only [evalCondE, List.mem_map, Prod.exists, Prod.mk.injEq] at h
@@ -478,10 +493,19 @@ theorem absExec_sound (S : CSpec) (p : Stmt) :
       simp only [execE, List.mem_singleton, Prod.mk.injEq] at h
       obtain ⟨rfl, rfl, rfl⟩ := h
       refine ⟨rfl, absTag S t ab, by simp [absExec], ?_⟩
-      simp only [ghostAfter, List.foldl_cons, List.foldl_nil, ghost1, absTag]
+      show γ (absTag S t ab) (S.G s') (ghost1 S a (.emit t))
+      rw [ghost1_emit]
+      unfold absTag
       cases S.tells.lookup t with
       | none => exact hγ
-      | some m => cases hm : S.isHaltMsg m <;> simp [γ, hm]
+      | some m =>
+          dsimp only
+          cases hm : S.isHaltMsg m with
+          | true => simp [γ]
+          | false =>
+              cases hst : S.isStart m with
+              | true => simp [γ]
+              | false => simpa using hγ
   | scope body ih =>
       intro l s ab a f s' e hv hγ h
       simp only [execE, List.mem_map, Prod.exists] at h
